@@ -12,6 +12,10 @@ state the property is about:
   mean            MEAN over H,W: the optimiser creates all-ones weights and a zero bias whose value_id /
                   equivalence_id come from the process-wide memo `create_equivalence_id`
   pad             PAD kept as its own operator: constant border tensors with memoised equivalence ids
+  pad_edit        PAD operators whose paddings constant the graph optimiser REWRITES IN PLACE (tflite_graph_optimiser
+                  convert_pad_to_concat: `pad_tensor.values[axis, :] = 0`, split_pad_to_sub_pad: `pad_tensor.values[3] = [0, 0]`):
+                  channel + spatial padding, batch + channel, channel only, rank 3, one paddings constant shared by two PADs
+                  (seed mod 8 selects the variant, variant 0 with seed < 8 is the network of seeded change C14-r6m2)
   lut2            two or three LUT activations, possibly with identical tables (equivalence id memo + SHRAM slots)
   dupnames        several tensors of the output model share one name (the writer sorts tensors by name)
   custom_codes    three to five DIFFERENT third-party CUSTOM operators (same version) left on the CPU: the writer's
@@ -29,7 +33,7 @@ import zlib
 import netgen
 import pipe_common
 
-OWN_KINDS = ["shared_w", "shared_w_dtype", "mean", "pad", "lut2", "dupnames", "custom_codes", "twin0", "twin1"]
+OWN_KINDS = ["shared_w", "shared_w_dtype", "mean", "pad", "pad_edit", "lut2", "dupnames", "custom_codes", "twin0", "twin1"]
 PROFILE_KINDS = ["mixed", "cascade", "weights", "elementwise", "cpu", "cascade_chain", "lut", "weird"]
 
 
@@ -119,6 +123,66 @@ def _pad(rng, seed):
     cur = b.pool(cur, "MAX_POOL_2D", (2, 2), (1, 1), "VALID")     # keeps PAD as its own operator
     b.net.desc.append(f"pad dtype={dtype} pads={pads}")
     return b.finish([cur])
+
+
+PAD_EDIT_VARIANTS = ["chan_spatial", "chan_spatial_rand", "batch_chan", "shared_pads", "chan_only", "rank3", "chan_left_spatial", "spatial_then_chan"]
+
+
+def _pad_edit(rng, seed):
+    variant = PAD_EDIT_VARIANTS[seed % len(PAD_EDIT_VARIANTS)]
+    dtype = rng.choice(["int8", "int8", "uint8", "int16"])
+    b = netgen.B(rng, f"padedit{seed % 1000}", dtype)
+    c = rng.choice([4, 8, 16])
+    h, w = rng.randint(3, 9), rng.randint(3, 9)
+    if variant == "chan_spatial" and seed < 8:
+        dtype, h, w, c = "int8", 8, 8, 8
+        b.dtype = dtype
+    shape = [1, h, w, c]
+    x = b.input(shape if variant != "rank3" else shape[1:], zp=(rng.choice([0, 0, 3]) if dtype == "int8" else 128 if dtype == "uint8" else 0))
+    cur = x
+    if variant not in ("rank3", "chan_spatial") and rng.random() < 0.4:
+        cur = b.conv(cur, c, (3, 3), (1, 1), (1, 1), "SAME")
+    cpad = [rng.randint(0, 8), rng.randint(1, 8)]
+    sp = lambda: [rng.randint(0, 2), rng.randint(1, 2)]
+    if variant == "chan_spatial":
+        pads = [[0, 0], [1, 1], [1, 1], [0, 8]] if seed < 8 else [[0, 0], sp(), sp(), [0, rng.choice([4, 8, 16])]]
+    elif variant in ("chan_spatial_rand", "shared_pads", "spatial_then_chan"):
+        pads = [[0, 0], sp(), sp(), cpad]
+    elif variant == "chan_left_spatial":
+        pads = [[0, 0], sp(), [0, 0], [rng.randint(1, 8), 0]]
+    elif variant == "batch_chan":
+        pads = [[rng.randint(0, 1), 1], [0, 0], [0, 0], cpad]
+    elif variant == "chan_only":
+        pads = [[0, 0], [0, 0], [0, 0], cpad]
+    else:
+        pads = [sp(), sp(), cpad]
+    if variant == "rank3":
+        pt = b.const([3, 2], "int32", pads, name=b.fresh("pads"))
+        xt = b.t(cur)
+        o = b.fm([d + p[0] + p[1] for d, p in zip(xt.shape, pads)], xt.dtype, scale=xt.scales[0], zp=xt.zps[0])
+        b.net.ops.append(netgen.Op("PAD", [cur, pt], [o], ("PadOptions", {})))
+        cur = o
+    elif variant == "spatial_then_chan":
+        cur = b.pad(cur, [[0, 0], sp(), sp(), [0, 0]])
+        cur = b.pad(cur, pads)
+    else:
+        cur = b.pad(cur, pads)
+    outs = [cur]
+    if variant == "shared_pads":
+        # a second PAD of another tensor with the SAME paddings constant
+        pt = b.net.ops[-1].inputs[1]
+        y = b.unary("RELU", x) if rng.random() < 0.5 else b.input(shape)
+        yt = b.t(y)
+        o = b.fm([d + p[0] + p[1] for d, p in zip(yt.shape, pads)], yt.dtype, scale=yt.scales[0], zp=yt.zps[0])
+        b.net.ops.append(netgen.Op("PAD", [y, pt], [o], ("PadOptions", {})))
+        outs.append(o)
+    tail = rng.choice(["none", "pool", "conv", "none"])
+    if variant not in ("rank3", "batch_chan") and tail != "none":
+        t = b.pool(outs[0], "MAX_POOL_2D", (2, 2), (1, 1), "VALID") if tail == "pool" else b.conv(outs[0], 8, (1, 1), (1, 1), (1, 1), "SAME")
+        if t is not None:
+            outs[0] = t
+    b.net.desc.append(f"pad_edit variant={variant} dtype={dtype} pads={pads} tail={tail}")
+    return b.finish(outs)
 
 
 def _lut2(rng, seed):
